@@ -148,4 +148,28 @@ Section Toolbox.
     replace (2 <? len tokens) with true by (unfold len; lia). py.
     unfold bytes_of. cbn [bytes_ok forallb]. rewrite prand_byte_ok. reflexivity.
   Qed.
+
+  Theorem toolbox_matches_source :
+    (forall k r, run src_ah_params src_ah [VBytes k; VBytes r] = VBytes (ah e k r)) /\
+    (forall k r preq pres iat rat ia ra,
+       run src_c1_params src_c1 [VBytes k; VBytes r; VBytes preq; VBytes pres; VInt iat; VInt rat; VBytes ia; VBytes ra] =
+       match c1 e k r preq pres iat rat ia ra with Some o => VBytes o | None => VErr end) /\
+    (forall k r1 r2, run src_s1_params src_s1 [VBytes k; VBytes r1; VBytes r2] = VBytes (s1 e k r1 r2)) /\
+    (forall u v x z, run src_f4_params src_f4 [VBytes u; VBytes v; VBytes x; VBytes z] = VBytes (f4 aes_cmac u v x z)) /\
+    (forall w n1 n2 a1 a2, run src_f5_params src_f5 [VBytes w; VBytes n1; VBytes n2; VBytes a1; VBytes a2] =
+       VTuple [VBytes (fst (f5 aes_cmac w n1 n2 a1 a2)); VBytes (snd (f5 aes_cmac w n1 n2 a1 a2))]) /\
+    (forall w n1 n2 r io_cap a1 a2,
+       run src_f6_params src_f6 [VBytes w; VBytes n1; VBytes n2; VBytes r; VBytes io_cap; VBytes a1; VBytes a2] =
+       VBytes (f6 aes_cmac w n1 n2 r io_cap a1 a2)) /\
+    (forall u v x y, run src_g2_params src_g2 [VBytes u; VBytes v; VBytes x; VBytes y] = VInt (g2 aes_cmac u v x y)) /\
+    (forall w key_id, run src_h6_params src_h6 [VBytes w; VBytes key_id] = VBytes (h6 aes_cmac w key_id)) /\
+    (forall salt w, run src_h7_params src_h7 [VBytes salt; VBytes w] = VBytes (h7 aes_cmac salt w)) /\
+    (forall x y, run src_xor_params src_xor [VBytes x; VBytes y] =
+       match xor_assert x y with Some r => VBytes r | None => VErr end) /\
+    (forall b, run src_reverse_params src_reverse [VBytes b] = VBytes (rev b)).
+  Proof.
+    exact (conj ah_matches_source (conj c1_matches_source (conj s1_matches_source (conj f4_matches_source
+          (conj f5_matches_source (conj f6_matches_source (conj g2_matches_source (conj h6_matches_source
+          (conj h7_matches_source (conj xor_matches_source reverse_matches_source)))))))))).
+  Qed.
 End Toolbox.
